@@ -118,7 +118,7 @@ func (g *gen) echo(name string) string {
 }
 
 type genOpts struct {
-	matrixRef bool // allow for: matrix with ref: rows (known racy, 7.17)
+	matrixRef bool // allow for: matrix with ref: rows (DESIGN 7.17, repaired in /repo 3d636e5)
 	pipeErr   bool // allow pipelines whose stages write to stdout and stderr at once
 }
 
@@ -419,7 +419,7 @@ func generate(seed int64, variant int, o genOpts, maxExecs int) *RaceCase {
 }
 
 // Directed cases: one small program per object class that the extracted table
-// flags (or that a finding was recorded for), so that the dynamic leg is not a
+// flags or once flagged (regression cases for the repaired findings), so that the dynamic leg is not a
 // matter of luck for them.
 func Directed() []*RaceCase {
 	matrixCmd := `version: '3'
